@@ -206,47 +206,70 @@ def exact_det_dev_zero(A):
     return out
 
 
-def wilkinson_b_vanishes(T):
-    """Input-class predicate of the open finding D23, from an independent replica of the routine's deflation step in exact-ish
-    (float64/longdouble numpy) arithmetic: for the trigonometric root the routine can pick (the extreme deviatoric root, or
-    the middle one when det(dev) = 0 to rounding) and every (tied-)largest pivot row, the deflated 2x2 block
-    [[xx, xy], [xy, yy]] has xx == yy to within 64 eps while xy is not small: the Wilkinson variable b = (xx - yy)/2 vanishes
-    (to rounding), where the routine multiplies its square root by sign(b)."""
+def deflation_surfaces(T):
+    """Exact-tie surfaces of the routine's *second-stage* branch variables an input sits on, from an independent replica of
+    the deflation step in longdouble numpy arithmetic (for every trigonometric root the routine can pick -- the extreme
+    deviatoric root, or the middle one when det(dev) = 0 to rounding -- and every (tied-)largest pivot row):
+      'b_zero'    the deflated 2x2 block [[xx, xy], [xy, yy]] has xx == yy to 64 eps while xy is not small: the Wilkinson
+                  variable b = (xx - yy)/2 vanishes where the routine multiplies its square root by sign(b)      (D23)
+      'pivot_tie' two pivot row norms k_i agree to 64 eps                                                         (D8b)
+      'a_tie'     the two rows left after projecting out the pivot row have equal norms a0 == a1 to 64 eps        (D8b)
+      'fac_tie'   |xx - eval0| == |yy - eval0| to 64 eps (the `rm2xx2 < rm2yy2` selector)                         (D8b)
+    Returns a set of names."""
+    out = set()
     T = onp.asarray(T, dtype=float)
     if not onp.all(onp.isfinite(T)):
-        return False
+        return out
     T = 0.5 * (T + T.T)
     nrm = onp.abs(T).sum(axis=1).max()
     if not nrm > 0:
-        return False
-    D = (T / nrm).astype(onp.longdouble)
-    D = D - (D[0, 0] + D[1, 1] + D[2, 2]) / 3 * onp.eye(3, dtype=onp.longdouble)
-    w = onp.linalg.eigvalsh(D.astype(float)).astype(onp.longdouble)
+        return out
+    LD = onp.longdouble
+    D = (T / nrm).astype(LD)
+    D = D - (D[0, 0] + D[1, 1] + D[2, 2]) / 3 * onp.eye(3, dtype=LD)
+    w = onp.linalg.eigvalsh(D.astype(float)).astype(LD)
     dn = float(onp.abs(D).max())
     if not dn > 0:
-        return False
+        return out
     detD = float(det3_fraction([[D[i][j] for j in range(3)] for i in range(3)]))
     cands = [w[2] if detD > 0 else w[0]]
     if abs(detD) <= 1e-13 * dn ** 3:
         cands = [w[1], w[0], w[2]]
+    tol = 64 * EPS
     for e2 in cands:
-        B = D - e2 * onp.eye(3, dtype=onp.longdouble)
+        B = D - e2 * onp.eye(3, dtype=LD)
         kn = (B * B).sum(axis=1)
         if not kn.max() > 0:
             continue
+        ks = sorted([float(x) for x in kn], reverse=True)
+        if ks[0] - ks[1] <= tol * ks[0]:
+            out.add("pivot_tie")
         for p in range(3):
             if kn[p] < kn.max() * (1 - 1e-12):
                 continue
             k = B[p]
             rest = [B[q] - (B[q] @ k) / (k @ k) * k for q in range(3) if q != p]
-            a = rest[0] if (rest[0] @ rest[0]) >= (rest[1] @ rest[1]) else rest[1]
-            aa = a @ a
-            if not aa > 1e-24 * dn * dn:
-                continue
-            xx = (k @ (D @ k)) / (k @ k)
-            yy = (a @ (D @ a)) / aa
-            xy = abs(k @ (D @ a)) / onp.sqrt((k @ k) * aa)
-            b = (xx - yy) / 2
-            if abs(b) <= 64 * EPS * max(abs(xx), abs(yy), xy) and xy > 1e-6 * dn:
-                return True
-    return False
+            n0, n1 = rest[0] @ rest[0], rest[1] @ rest[1]
+            if abs(n0 - n1) <= tol * max(n0, n1) and max(n0, n1) > 1e-24 * dn * dn:
+                out.add("a_tie")
+            for a in (rest if abs(n0 - n1) <= tol * max(n0, n1) else [rest[0] if n0 >= n1 else rest[1]]):
+                aa = a @ a
+                if not aa > 1e-24 * dn * dn:
+                    continue
+                xx = (k @ (D @ k)) / (k @ k)
+                yy = (a @ (D @ a)) / aa
+                xy = abs(k @ (D @ a)) / onp.sqrt((k @ k) * aa)
+                b = (xx - yy) / 2
+                big = max(abs(xx), abs(yy), xy)
+                if abs(b) <= tol * big and xy > 1e-6 * dn:
+                    out.add("b_zero")
+                root = onp.sqrt(b * b + xy * xy)
+                for e0 in (yy + b - root, yy + b + root):
+                    if abs(abs(xx - e0) - abs(yy - e0)) <= tol * big and xy > 1e-6 * dn:
+                        out.add("fac_tie")
+    return out
+
+
+def wilkinson_b_vanishes(T):
+    """'b_zero' member of deflation_surfaces (input-class predicate of the open finding D23)."""
+    return "b_zero" in deflation_surfaces(T)
